@@ -288,8 +288,9 @@ def part_keys(ctx, env, G):
                     if rec["sig"][dn] != sig[dn]:
                         what = "sql" if rec["sig"][dn][0] != sig[dn][0] else "binds-or-result-columns"
                         attr = _mech_from_diff(rec["spec"], sp)
+                        unc = _has_uncacheable_bind_type(sp) or _has_uncacheable_bind_type(rec["spec"])
                         ctx.violation(
-                            f"equal-cache-key-different-{what}:{attr}",
+                            "cacheable-statement:bindparam-with-uncacheable-type" if unc else f"equal-cache-key-different-{what}:{attr}",
                             f"two statements with equal cache keys compile differently on {dn}: "
                             f"{rec['sig'][dn][0]!r} vs {sig[dn][0]!r}",
                             {"dialect": dn, "first": {"spec": rec["spec"], "sql": rec["sig"][dn]},
@@ -342,12 +343,14 @@ def part_keys(ctx, env, G):
                 cached_sql = _norm_sql(str(compiled), mc)
                 if cached_sql != sig[dn][0]:
                     ctx.violation(
+                        "cacheable-statement:bindparam-with-uncacheable-type" if _has_uncacheable_bind_type(sp) else
                         "cached-sql-differs-from-own-sql:" + ("hit" if is_hit else "miss"),
                         f"{dn}: cached Compiled string {cached_sql!r} != uncached {sig[dn][0]!r}",
                         {"spec": sp, "dialect": dn, "hit": is_hit})
                 elif got != refparams[dn]:
                     bad = sorted(k for k in set(got) | set(refparams[dn]) if got.get(k, "<missing>") != refparams[dn].get(k, "<missing>"))
                     ctx.violation(
+                        "cacheable-statement:bindparam-with-uncacheable-type" if _has_uncacheable_bind_type(sp) else
                         "cached-params-differ-from-own-params:" + ("hit" if is_hit else "miss"),
                         f"{dn}: cached construct_params {got!r} != statement's own {refparams[dn]!r} (keys {bad})",
                         {"spec": sp, "dialect": dn, "hit": is_hit, "got": got, "expected": refparams[dn], "values": b.vals.log})
@@ -404,8 +407,31 @@ def _has_callable_bind(node):
     return False
 
 
+def _mentions_uncacheable_type(t):
+    if isinstance(t, list):
+        if t and t[0] in ("NC", "NCD"):
+            return True
+        return any(_mentions_uncacheable_type(x) for x in t)
+    if isinstance(t, dict):
+        return any(_mentions_uncacheable_type(x) for x in t.values())
+    return False
+
+
+def _has_uncacheable_bind_type(node):
+    """a bindparam whose type is, or holds, a type declared cache_ok = False"""
+    if isinstance(node, list):
+        if node and node[0] in ("bind", "abind") and isinstance(node[-1], dict) and _mentions_uncacheable_type(node[-1].get("type")):
+            return True
+        return any(_has_uncacheable_bind_type(x) for x in node)
+    if isinstance(node, dict):
+        return any(_has_uncacheable_bind_type(x) for x in node.values())
+    return False
+
+
 def _witness_feature(spec):
     """a structural feature of the witness that identifies a known defect class (part of the mechanism)"""
+    if _has_uncacheable_bind_type(spec):
+        return "bindparam-with-uncacheable-type"
     for o in spec.get("options", ()) or ():
         if len(o) > 3 and o[3] is not None and o[0] != "loader_criteria" and _has_callable_bind(o[3]):
             return "loader-criteria-callable-bind"
@@ -453,7 +479,7 @@ def _execute(env, engine, spy, spec, stmt, params, is_orm_entity):
         outcome = ("dbapi-error", type(e).__name__, type(e.orig).__name__)
     except sa_exc.SQLAlchemyError as e:
         outcome = ("sa-error", type(e).__name__)
-    except (TypeError, ValueError) as e:
+    except Exception as e:  # TypeError / ValueError / UnpicklingError ... raised by a result processor
         # an ill-typed *perturbed* statement (a str stored in a Date column by a swapped INSERT..SELECT, a
         # CASE mixing NUMERIC and text ...) makes SQLite hand a value of the wrong type to a result
         # processor.  That is the workload's doing; it is an outcome like any other and must simply be the
@@ -558,7 +584,8 @@ def part_exec(ctx, env, G):
                         what = "rows"
                     feat = _witness_feature(it["spec"])
                     ctx.violation(
-                        f"cache-vs-disabled:{kind}:{feat}" if feat else f"{name}-cache-vs-disabled:{what}:{kind}",
+                        (f"cacheable-statement:{feat}" if feat == "bindparam-with-uncacheable-type" else f"cache-vs-disabled:{kind}:{feat}")
+                        if feat else f"{name}-cache-vs-disabled:{what}:{kind}",
                         f"{what} differ between cache disabled and {name} cache for a {kind} statement "
                         f"(perturbation tag {it['tag']}): disabled={ra!r:.300} {name}={other!r:.300}",
                         {"spec": it["spec"], "values": it["values"], "params": it["params"], "disabled": ra, name: other,
